@@ -340,14 +340,44 @@ def rule_r5(chk):
                f"{sh3.checks} conformability checks on xi = T@xi + K; xi += (P@u)[:, t]" + (f": {errs3[0]}" if errs3 else ""), fm.loc(h))
 
 
+def rule_r8(chk):
+    from ..core import inline_locals
+    chk.rule("C18-R8", "the unconditional mean is (I - A1 - ... - Ap)^-1 c: A is stored as [A1 A2 ... Ap] side by side (n x np), so the lag "
+             "index is separated into a trailing axis by a COLUMN-MAJOR reshape to (n, n, p) and summed over that axis; a row-major "
+             "reshape mixes columns of different lags", floor=2, shape_independent=True)
+    vm = chk.repo.mod(VMOD)
+    f = vm.func("Variant.get_mean")
+    chk.saw(vm, "Variant.get_mean")
+    rs = [c for c in ast.walk(f) if isinstance(c, ast.Call) and isinstance(c.func, ast.Attribute) and c.func.attr == "reshape"]
+    sums = [c for c in ast.walk(f) if isinstance(c, ast.Call) and isinstance(c.func, ast.Attribute) and c.func.attr == "sum"]
+    if len(rs) != 1 or len(sums) != 1:
+        chk.undecided("C18-R8", "red_vars._variants.Variant.get_mean", "reshape / sum over the lags not recognised", vm.loc(f))
+        return
+    shape = inline_locals(f, rs[0].args[0]) if rs[0].args else None
+    kw = {k.arg: k.value for k in rs[0].keywords}
+    dims = [unparse(e) for e in shape.elts] if isinstance(shape, ast.Tuple) else None
+    lag_last = dims is not None and len(dims) == 3 and dims[0] == dims[1] and dims[2] != dims[0]
+    col_major = isinstance(kw.get("order"), ast.Constant) and kw["order"].value == "F"
+    chk.ob("C18-R8", "red_vars._variants.Variant.get_mean[lag axis]", (lag_last and col_major) if dims is not None else None,
+           f"A.reshape({dims}, order={unparse(kw['order']) if 'order' in kw else 'C (default)'})" + ("" if col_major else
+           ": with the default row-major order the trailing axis runs over adjacent columns, not over the lag blocks A1 ... Ap"), vm.loc(rs[0]), sure=dims is not None)
+    skw = {k.arg: k.value for k in sums[0].keywords}
+    ax = skw.get("axis") or (sums[0].args[0] if sums[0].args else None)
+    chk.ob("C18-R8", "red_vars._variants.Variant.get_mean[sum over lags]", isinstance(ax, ast.Constant) and ax.value in (2, -1) if ax is not None else None,
+           f"sum(axis={unparse(ax) if ax is not None else None}) over the trailing (lag) axis", vm.loc(sums[0]), sure=ax is not None)
+
+
 def run(chk):
     chk.guard(rule_r1, chk, thorough=(chk.tier == "thorough"))
     chk.guard(rule_r2, chk)
     chk.guard(rule_r3, chk)
     chk.guard(rule_r4, chk)
     chk.guard(rule_r5, chk)
+    chk.guard(rule_r8, chk)
     from .. import variants
     chk.guard(variants.apply, chk, "C18-R6", [("irispie.red_vars._simulators", "_simulate"), ("irispie.red_vars._estimators", "Inlay.estimate")])
+    from .. import merge as _merge
+    chk.guard(_merge.apply, chk, "C18-R7", ["irispie.red_vars._estimators", "irispie.red_vars._simulators"])
     from .. import unused as _unused
     chk.guard(_unused.apply, chk, "C18-R91")
     from .. import args as _args
